@@ -449,6 +449,39 @@ def run_case(c):
                         "signatures (first run: exc %r, %d)" % (
                             exc2, seen["first"] and seen["first"].hex(), len(seen["sigs"]), exc,
                             exp_sent))
+    # one loaded authorization handed to the device layer twice (a retry after an attempt that
+    # broke off, as a caller holding the object makes it): the same exchanges both times, and
+    # the authorization is still the one that was loaded
+    from admin.signer_authorization import SignerAuthorization as _SA
+    sa = _SA.from_jsonfile(p1)
+    before = json.dumps(sa.to_dict(), sort_keys=True)
+    dongle = mw.hd.HSM2Dongle(False)
+    dongle.connect()
+    try:
+        for attempt in (1, 2):
+            w.unlocked = True
+            w.mode = BOOT
+            seen.update({"first": None, "sigs": [], "count": 0})
+            exc3 = None
+            try:
+                dongle.authorize_signer(sa)
+            except Exception as e:   # noqa
+                exc3 = e
+            mw.check_sim(w)
+            if seen["first"] != want_first or [x.hex() for x in seen["sigs"]] != good[:exp_sent]:
+                raise Violation("authorize-object-reuse", "attempt %d with the same loaded "
+                                "authorization: first APDU %r, signatures %r; file order %r "
+                                "(expected the first %d); %r" % (
+                                    attempt, seen["first"] and seen["first"].hex()[:20],
+                                    [x.hex()[:16] for x in seen["sigs"]],
+                                    [x[:16] for x in good], exp_sent, exc3))
+            if json.dumps(sa.to_dict(), sort_keys=True) != before:
+                raise Violation("authorization-changed-by-sending-it", "after attempt %d the "
+                                "loaded authorization reads %s, it was %s" % (
+                                    attempt, json.dumps(sa.to_dict())[:200], before[:200]))
+    finally:
+        dongle.disconnect()
+    labels.append("authorize:same-object-twice")
     return Out(labels, len(good) >= 2 or n in (0, 65535))
 
 
